@@ -28,7 +28,7 @@ var c15EntryNames = []string{"Encoder.WriteTo", "Encoder.WriteObject(stream)", "
 // c15Domain is wider than the round-trip core domain: the oracle only needs values the encoder
 // accepts without a fault.
 func c15Domain() Domain {
-	return Domain{Untyped: true, EmptyStringElems: true, NilPtrElems: true, ZeroTimeElems: true, BigStrings: true, BigBinaries: true,
+	return Domain{Untyped: true, LooseDyn: true, EmptyStringElems: true, NilPtrElems: true, ZeroTimeElems: true, BigStrings: true, BigBinaries: true,
 		FarDates: true, AllDoubles: true, OddMaps: true, MaxListLen: 12, MaxMapLen: 5}
 }
 
